@@ -253,6 +253,8 @@ func kvNewStore(name string) kvStore {
 		return &kvContact{}
 	case "lookup":
 		return &kvLookup{}
+	case "adb":
+		return &kvAlertDB{}
 	}
 	return nil
 }
@@ -438,7 +440,7 @@ var kvVals = []string{"v1", "v2", "v3", "", " ", "* | stats count", "ünï", "{\
 func kvPick(r *rand.Rand, pool []string) string { return pool[r.Intn(len(pool))] }
 
 func genKV(r *rand.Rand, n int, tier string) []string {
-	stores := []string{"usq", "alias", "dash", "contact", "lookup"}
+	stores := []string{"usq", "alias", "dash", "contact", "lookup", "adb"}
 	var out []string
 	for i := 0; i < n; i++ {
 		store := stores[i%len(stores)]
@@ -462,6 +464,10 @@ func genKV(r *rand.Rand, n int, tier string) []string {
 		}
 		if store == "lookup" {
 			out = append(out, genLookupLine(r))
+			continue
+		}
+		if store == "adb" {
+			out = append(out, genAlertDBLine(r))
 			continue
 		}
 		out = append(out, genKVLine(r, store))
@@ -1071,7 +1077,7 @@ func kvDashErr(err error) string {
 		return "inv"
 	case strings.Contains(m, "arent folder not found"):
 		return "pnf"
-	case strings.Contains(m, "must be a folder"), strings.Contains(m, "is not a dashboard"):
+	case strings.Contains(m, "must be a folder"), strings.Contains(m, "is not a dashboard"), strings.Contains(m, "is not a folder"):
 		return "nd"
 	case strings.Contains(m, "already exists"):
 		return "ex"
@@ -1978,4 +1984,364 @@ func genLookupLine(r *rand.Rand) string {
 		}
 	}
 	return "kv lookup " + strings.Join(ops, " ")
+}
+
+// ---------------------------------------------------------------- alert definitions (sqlite / gorm)
+
+// kvAlertDB drives the alert CRUD methods of pkg/alerts/alertsqlite through the alertsHandler database object,
+// the way the HTTP handlers do (update = GetAlert, overwrite the configuration fields, UpdateAlert). Contacts
+// and alerts are numbered separately in creation order.
+//   p<t>.<name>                      CreateContact (no channels)                       → ok:<cid>
+//   c<t>.<name>=<msg>@<cid>          CreateAlert (log alert, fixed valid query)         → ok:<id>
+//   u<t>.<id>=<name>:<msg>[@<cid>]   GetAlert + UpdateAlert                            d<t>.<id> DeleteAlert
+//   g<t>.<id> GetAlert               l<t> GetAllAlerts                                 R close + reopen siglens.db
+type kvAlertObj struct {
+	name, msg string
+	cid       int
+}
+
+type kvAlertDB struct {
+	cuuid  []string
+	cnum   map[string]int
+	cname  map[int]string
+	auuid  []string
+	anum   map[string]int
+	shadow [3]map[int]*kvAlertObj
+}
+
+func (s *kvAlertDB) parse(tok string) (kvOp, bool) {
+	if tok == "R" {
+		return kvOp{kind: 'R', form: 'R'}, true
+	}
+	if len(tok) == 2 && tok[0] == 'l' {
+		if tok[1] < '0' || tok[1] > '2' {
+			return kvOp{}, false
+		}
+		return kvOp{kind: 'l', t: int(tok[1] - '0'), form: 'l'}, true
+	}
+	if len(tok) < 3 || tok[1] < '0' || tok[1] > '2' || tok[2] != '.' {
+		return kvOp{}, false
+	}
+	op := kvOp{kind: tok[0], t: int(tok[1] - '0'), pid: -1}
+	rest := tok[3:]
+	var ok bool
+	switch op.kind {
+	case 'p':
+		if op.k, ok = kvHexLower(rest); !ok {
+			return kvOp{}, false
+		}
+	case 'c':
+		body, pid, ok1 := kvSplitAt(rest)
+		k, v, ok2 := kvSplit1(body, "=")
+		if !ok1 || !ok2 || pid < 1 {
+			return kvOp{}, false
+		}
+		op.pid = pid
+		if op.k, ok = kvHexLower(k); !ok {
+			return kvOp{}, false
+		}
+		if op.v, ok = kvHexLower(v); !ok {
+			return kvOp{}, false
+		}
+	case 'u':
+		body, pid, ok1 := kvSplitAt(rest)
+		ids, nv, ok2 := kvSplit1(body, "=")
+		if !ok1 || !ok2 || pid == 0 {
+			return kvOp{}, false
+		}
+		k, v, ok3 := kvSplit1(nv, ":")
+		id, ok4 := kvDec(ids)
+		if !ok3 || !ok4 || id == 0 {
+			return kvOp{}, false
+		}
+		op.id, op.pid = id, pid
+		if op.k, ok = kvHexLower(k); !ok {
+			return kvOp{}, false
+		}
+		if op.v, ok = kvHexLower(v); !ok {
+			return kvOp{}, false
+		}
+	case 'd', 'g':
+		if op.id, ok = kvDec(rest); !ok || op.id == 0 {
+			return kvOp{}, false
+		}
+	default:
+		return kvOp{}, false
+	}
+	return op, true
+}
+
+func (s *kvAlertDB) boot() error {
+	s.cuuid, s.auuid = nil, nil
+	s.cnum, s.anum, s.cname = map[string]int{}, map[string]int{}, map[int]string{}
+	for i := range s.shadow {
+		s.shadow[i] = map[int]*kvAlertObj{}
+	}
+	if kvContactConnected {
+		alertsHandler.Disconnect()
+	}
+	if err := alertsHandler.ConnectSiglensDB(); err != nil {
+		return err
+	}
+	kvContactConnected = true
+	return alertsHandler.VerifTuneDB()
+}
+
+func (s *kvAlertDB) restart() error {
+	alertsHandler.Disconnect()
+	if err := alertsHandler.ConnectSiglensDB(); err != nil {
+		return err
+	}
+	return alertsHandler.VerifTuneDB()
+}
+
+func (s *kvAlertDB) cref(n int) string {
+	if n >= 1 && n <= len(s.cuuid) {
+		return s.cuuid[n-1]
+	}
+	return fmt.Sprintf("00000000-0000-4000-8000-c%011d", n)
+}
+
+func (s *kvAlertDB) aref(n int) string {
+	if n >= 1 && n <= len(s.auuid) {
+		return s.auuid[n-1]
+	}
+	return fmt.Sprintf("00000000-0000-4000-8000-a%011d", n)
+}
+
+func kvAlertErr(err error) string {
+	if err == nil {
+		return "ok"
+	}
+	m := err.Error()
+	switch {
+	case strings.Contains(m, "UNIQUE constraint failed"), strings.Contains(m, "already exists"):
+		return "ex"
+	case strings.Contains(m, "Contact does not exist"), strings.Contains(m, "contact:") && strings.Contains(m, "does not exist"):
+		return "pnf"
+	case strings.Contains(m, "does not exist"):
+		return "nf"
+	case strings.Contains(m, "not valid"), strings.Contains(m, "not Valid"), strings.Contains(m, "is not valid"):
+		return "inv"
+	}
+	return "err:" + strings.ReplaceAll(trunc(m, 200), " ", "_")
+}
+
+func kvAlertShow(name, msg string, cid int, cname string) string {
+	return fmt.Sprintf("name=%q message=%q contact=#c%d(%q)", name, msg, cid, cname)
+}
+
+func (s *kvAlertDB) shadowOf(t int) map[string]string {
+	m := map[string]string{}
+	for id, o := range s.shadow[t] {
+		m[fmt.Sprintf("#%d", id)] = kvAlertShow(o.name, o.msg, o.cid, s.cname[o.cid])
+	}
+	return m
+}
+
+func (s *kvAlertDB) readAll(t int) (map[string]string, error) {
+	as, err := alertsHandler.VerifGetAllAlerts(kvOrgs[t])
+	if err != nil {
+		return nil, err
+	}
+	m := map[string]string{}
+	for _, a := range as {
+		key := "unknown id " + a.AlertId
+		if n, ok := s.anum[a.AlertId]; ok {
+			key = fmt.Sprintf("#%d", n)
+		}
+		m[key] = kvAlertShow(a.AlertName, a.Message, s.cnum[a.ContactID], a.ContactName)
+	}
+	return m, nil
+}
+
+func (s *kvAlertDB) owner(id int) int {
+	for t := range s.shadow {
+		if s.shadow[t][id] != nil {
+			return t
+		}
+	}
+	return -1
+}
+
+func kvAlertTok(s *kvAlertDB, a *alertutils.AlertDetails) string {
+	return fmt.Sprintf("%d/%s/%s/%d/%s", s.anum[a.AlertId], kvHex(a.AlertName), kvHex(a.Message), s.cnum[a.ContactID], kvHex(a.ContactName))
+}
+
+func (s *kvAlertDB) apply(op kvOp) string {
+	org := kvOrgs[op.t]
+	switch op.kind {
+	case 'p':
+		c := &alertutils.Contact{ContactName: op.k, OrgId: org}
+		if err := alertsHandler.VerifCreateContact(c); err != nil {
+			return kvContactErr(err)
+		}
+		if c.ContactId == "" {
+			return "ok:-"
+		}
+		s.cuuid = append(s.cuuid, c.ContactId)
+		s.cnum[c.ContactId] = len(s.cuuid)
+		s.cname[len(s.cuuid)] = op.k
+		return fmt.Sprintf("ok:%d", len(s.cuuid))
+	case 'c':
+		a := alertutils.AlertDetails{
+			AlertConfig: alertutils.AlertConfig{
+				AlertName: op.k, AlertType: alertutils.AlertTypeLogs, ContactID: s.cref(op.pid),
+				QueryParams: alertutils.QueryParams{DataSource: "Logs", QueryLanguage: "Splunk QL", QueryText: "* | stats count", StartTime: "now-5m", EndTime: "now", Index: "*", QueryMode: "Builder"},
+				Condition:   alertutils.IsAbove, Value: 1, EvalWindow: 1, EvalInterval: 1, Message: op.v,
+			},
+			OrgId: org,
+		}
+		created, err := alertsHandler.VerifCreateAlert(&a)
+		if err != nil {
+			return kvAlertErr(err)
+		}
+		s.auuid = append(s.auuid, created.AlertId)
+		n := len(s.auuid)
+		s.anum[created.AlertId] = n
+		s.shadow[op.t][n] = &kvAlertObj{name: op.k, msg: op.v, cid: op.pid}
+		return fmt.Sprintf("ok:%d", n)
+	case 'u':
+		// ProcessUpdateAlertRequest: find the alert, overwrite the configuration fields, UpdateAlert
+		a, err := alertsHandler.VerifGetAlert(s.aref(op.id))
+		if err != nil {
+			return kvAlertErr(err)
+		}
+		a.AlertName, a.Message = op.k, op.v
+		if op.pid >= 0 {
+			a.ContactID = s.cref(op.pid)
+		}
+		err = alertsHandler.VerifUpdateAlert(a)
+		if err == nil {
+			if ow := s.owner(op.id); ow == op.t {
+				o := s.shadow[ow][op.id]
+				o.name, o.msg = op.k, op.v
+				if op.pid >= 0 {
+					o.cid = op.pid
+				}
+			} else if ow >= 0 {
+				kvCurRun.fail("foreign-tenant-write", fmt.Sprintf("UpdateAlert(#%d) by org %d succeeded on the alert of org %d", op.id, org, kvOrgs[ow]))
+				kvCurRun.tainted[ow], kvCurRun.tainted[op.t] = true, true
+			}
+		}
+		return kvAlertErr(err)
+	case 'd':
+		err := alertsHandler.VerifDeleteAlert(s.aref(op.id))
+		if err == nil {
+			if ow := s.owner(op.id); ow == op.t {
+				delete(s.shadow[ow], op.id)
+			} else if ow >= 0 {
+				kvCurRun.fail("foreign-tenant-write", fmt.Sprintf("DeleteAlert(#%d) by org %d succeeded on the alert of org %d", op.id, org, kvOrgs[ow]))
+				kvCurRun.tainted[ow], kvCurRun.tainted[op.t] = true, true
+			}
+		}
+		return kvAlertErr(err)
+	case 'g':
+		a, err := alertsHandler.VerifGetAlert(s.aref(op.id))
+		if err != nil {
+			return kvAlertErr(err)
+		}
+		if a.AlertId == "" {
+			return "-" // GetAlert of an unknown id answers an empty alert, not an error
+		}
+		if ow := s.owner(op.id); ow >= 0 && ow != op.t {
+			kvCurRun.fail("foreign-tenant-read", fmt.Sprintf("GetAlert(#%d) asked by org %d returns the alert of org %d", op.id, org, kvOrgs[ow]))
+		}
+		return kvAlertTok(s, a)
+	case 'l':
+		as, err := alertsHandler.VerifGetAllAlerts(org)
+		if err != nil {
+			return kvAlertErr(err)
+		}
+		var rows []string
+		for _, a := range as {
+			rows = append(rows, kvAlertTok(s, a))
+		}
+		return "[" + kvSortedJoin(rows, ",") + "]"
+	}
+	return "bad-op"
+}
+
+func genAlertDBLine(r *rand.Rand) string {
+	names := []string{"cpu high", "CPU high", "disk", "ünï", "日本", "a,b", "\"q\"", "x'y", "%", "null", "*x"}
+	r.Shuffle(len(names), func(i, j int) { names[i], names[j] = names[j], names[i] })
+	pool := names[:2+r.Intn(5)]
+	if r.Intn(15) == 0 {
+		pool = append(pool, []string{"", "*"}[r.Intn(2)])
+	}
+	msgs := []string{"", "m1", "m2", "ünï {{alert_rule_name}}", "line1\nline2"}
+	nt := []int{1, 2, 2, 3}[r.Intn(4)]
+	tperm := r.Perm(3)[:nt]
+	nops := 2 + r.Intn(28)
+	pR := []int{0, 4, 10}[r.Intn(3)]
+	pForeign := []int{0, 0, 10}[r.Intn(3)]
+	pDup := []int{0, 10, 30}[r.Intn(3)]
+	var ops []string
+	ncontacts := 0
+	alerts := []int{} // tenant of the n-th alert (a guess)
+	used := map[string]bool{}
+	newContact := func(t int) {
+		ncontacts++
+		ops = append(ops, fmt.Sprintf("p%d.%s", t, kvHex(fmt.Sprintf("contact-%d", ncontacts))))
+	}
+	newContact(tperm[0])
+	pickCid := func() int {
+		if r.Intn(12) == 0 {
+			return ncontacts + 1 + r.Intn(2)
+		}
+		return 1 + r.Intn(ncontacts)
+	}
+	pickID := func(t int) int {
+		var c []int
+		for i, at := range alerts {
+			if at == t || r.Intn(100) < pForeign {
+				c = append(c, i+1)
+			}
+		}
+		if len(c) == 0 || r.Intn(15) == 0 {
+			return len(alerts) + 1 + r.Intn(2)
+		}
+		return c[r.Intn(len(c))]
+	}
+	for j := 0; j < nops; j++ {
+		t := tperm[r.Intn(nt)]
+		if r.Intn(100) < pR {
+			ops = append(ops, "R")
+			continue
+		}
+		x := r.Intn(100)
+		switch {
+		case x < 8:
+			newContact(t)
+		case x < 38:
+			name := kvPick(r, pool)
+			if used[name] && r.Intn(100) >= pDup {
+				name = fmt.Sprintf("%s-%d", name, j)
+			}
+			cid := pickCid()
+			ops = append(ops, fmt.Sprintf("c%d.%s=%s@%d", t, kvHex(name), kvHex(kvPick(r, msgs)), cid))
+			if !used[name] && name != "" && name != "*" && cid <= ncontacts {
+				used[name] = true
+				alerts = append(alerts, t)
+			}
+		case x < 60:
+			name := kvPick(r, pool)
+			if r.Intn(100) >= pDup {
+				name = fmt.Sprintf("%s-u%d", name, j)
+			}
+			at := ""
+			if r.Intn(3) == 0 {
+				at = fmt.Sprintf("@%d", pickCid())
+			}
+			ops = append(ops, fmt.Sprintf("u%d.%d=%s:%s%s", t, pickID(t), kvHex(name), kvHex(kvPick(r, msgs)), at))
+			used[name] = true
+		case x < 72:
+			ops = append(ops, fmt.Sprintf("d%d.%d", t, pickID(t)))
+		case x < 84:
+			ops = append(ops, fmt.Sprintf("g%d.%d", t, pickID(t)))
+		default:
+			ops = append(ops, fmt.Sprintf("l%d", t))
+		}
+	}
+	return "kv adb " + strings.Join(ops, " ")
 }
